@@ -31,8 +31,8 @@ ASSUMPTIONS = [
 MIN_NONTRIVIAL = {"quick": 15000, "thorough": 300000}
 TIMEOUT = {"quick": 1200, "thorough": 7200}
 
-NSHARD = {"quick": 8, "thorough": 16}
-NTABLE = {"quick": 304, "thorough": 10000}
+NSHARD = {"quick": 16, "thorough": 16}
+NTABLE = {"quick": 608, "thorough": 10000}
 
 
 def shards(tier, seed):
